@@ -2,10 +2,13 @@ package h
 
 import (
 	"fmt"
+	"sort"
+	"strings"
 	"testing"
 	"time"
 
 	"github.com/absfs/absnfs"
+	"github.com/anishathalye/porcupine"
 
 	"verif/sim/simrt"
 )
@@ -40,10 +43,85 @@ type LimEv struct {
 }
 
 type LimScn struct {
-	Kind   string   `json:"kind"`
-	Cfg    LimCfg   `json:"cfg"`
-	Events []LimEv  `json:"events"`
-	Sched  SchedCfg `json:"sched"`
+	Kind    string    `json:"kind"`
+	Cfg     LimCfg    `json:"cfg"`
+	Events  []LimEv   `json:"events"`
+	Threads [][]LimEv `json:"threads,omitempty"` // C19 concurrent variant: request streams issued at one instant by several tasks
+	Sched   SchedCfg  `json:"sched"`
+}
+
+// ---- C19, concurrent variant: AllowRequest from several tasks at one simulated instant ----
+
+type limIn struct{ ip int }
+
+// limState: how many requests were admitted in total, and per client how many were admitted and issued.
+type limState struct {
+	admitted int
+	ipAdm    [8]int
+	ipReq    [8]int
+}
+
+func runLimiterConcurrent(o *Outcome, sc *LimScn) {
+	cfg := sc.Cfg
+	rl := absnfs.NewRateLimiter(cfg.config())
+	var ops []porcupine.Operation
+	done := make(chan []porcupine.Operation, len(sc.Threads))
+	for ti, th := range sc.Threads {
+		ti, th := ti, th
+		simrt.Go(fmt.Sprintf("lim-client-%d", ti), func() {
+			var mine []porcupine.Operation
+			for _, ev := range th {
+				call := simrt.Stamp()
+				ok := rl.AllowRequest(fmt.Sprintf("10.0.0.%d", ev.IP), fmt.Sprintf("conn-%d", ev.Conn))
+				mine = append(mine, porcupine.Operation{ClientId: ti, Input: limIn{ev.IP % 8}, Call: call, Output: ok, Return: simrt.Stamp()})
+			}
+			simrt.Send("lim.done", done, mine)
+		})
+	}
+	total := 0
+	for range sc.Threads {
+		ops = append(ops, simrt.Recv("lim.wait", done)...)
+	}
+	for _, th := range sc.Threads {
+		total += len(th)
+	}
+	o.NonTrivial = total >= 3 && len(sc.Threads) >= 2
+	G, B := cfg.Global, cfg.PerIPBurst
+	model := porcupine.Model{
+		Init: func() any { return limState{} },
+		Step: func(state, in, out any) (bool, any) {
+			st := state.(limState)
+			ip := in.(limIn).ip
+			if out.(bool) {
+				// admitted: needs room in the global budget and in the client's own
+				if st.admitted >= G || st.ipAdm[ip] >= B {
+					return false, state
+				}
+				st.admitted++
+				st.ipAdm[ip]++
+				st.ipReq[ip]++
+				return true, st
+			}
+			// refused: legal only when the admitted total has used up the global budget, or the client
+			// has itself already issued as many requests as its own burst allows
+			if st.admitted < G && st.ipReq[ip] < B {
+				return false, state
+			}
+			st.ipReq[ip]++
+			return true, st
+		},
+		Equal:             func(a, b any) bool { return a.(limState) == b.(limState) },
+		DescribeOperation: func(in, out any) string { return fmt.Sprintf("AllowRequest(ip %d) -> %v", in.(limIn).ip, out) },
+	}
+	o.Checks++
+	if porcupine.CheckOperationsTimeout(model, ops, 5*time.Second) == porcupine.Illegal {
+		var sb strings.Builder
+		sort.Slice(ops, func(i, j int) bool { return ops[i].Call < ops[j].Call })
+		for _, op := range ops {
+			fmt.Fprintf(&sb, "c%d[%d,%d] AllowRequest(ip %d) -> %v\n", op.ClientId, op.Call, op.Return, op.Input.(limIn).ip, op.Output)
+		}
+		o.Vio("C19.compliant-client-refused-under-concurrency", "", "global budget %d, per-client burst %d, all requests at one instant: no serial order explains the decisions (a client within its own limit was refused although the admitted total left room in the global budget, or more were admitted than the budgets allow):\n%s", G, B, sb.String())
+	}
 }
 
 // bucket is the reference token bucket: tokens = min(burst, tokens + rate*dt).
@@ -88,6 +166,10 @@ func runLimiter(t *testing.T, scAny any, trace bool) *Outcome {
 	o := &Outcome{}
 	res := Bubble(t, sc.Sched.config(trace), nil, func() {
 		simrt.Event("scenario %x", simrt.Hash(hashBytes(mustJSON(sc))))
+		if len(sc.Threads) > 0 {
+			runLimiterConcurrent(o, sc)
+			return
+		}
 		o.NonTrivial = len(sc.Events) > 0
 		decisions := func(cleanupMs int) []bool {
 			cfg := sc.Cfg
@@ -286,6 +368,25 @@ func genC18(r *simrt.Rand, tier string) any {
 }
 
 func genC19(r *simrt.Rand, tier string) any {
+	if r.Pct(25) {
+		// concurrent variant: an abusive client and fresh clients issue requests at the same instant
+		sc := &LimScn{Kind: "C19", Sched: RandSched(r)}
+		sc.Sched.HorizonS = 600
+		sc.Cfg = LimCfg{Global: 1 + r.Int(3), PerIP: 1, PerIPBurst: 1 + r.Int(2), PerConn: 0, CleanupMs: 300000}
+		var ab []LimEv
+		for i, n := 0, 3+r.Int(5); i < n; i++ {
+			ab = append(ab, LimEv{IP: 0, Conn: 0})
+		}
+		sc.Threads = append(sc.Threads, ab)
+		for c, n := 1, 1+r.Int(3); c <= n; c++ {
+			th := []LimEv{{IP: c, Conn: c}}
+			if r.Pct(30) {
+				th = append(th, LimEv{IP: c, Conn: c})
+			}
+			sc.Threads = append(sc.Threads, th)
+		}
+		return sc
+	}
 	sc := &LimScn{Kind: "C19", Sched: SeqSched(r.Uint64())}
 	// a global budget with room for the compliant clients, an abusive client far beyond its own limit
 	sc.Cfg = LimCfg{Global: []int{5, 10, 20}[r.Int(3)], PerIP: []int{1, 2, 3}[r.Int(3)], PerIPBurst: 1 + r.Int(3), PerConn: []int{0, 2}[r.Int(2)], ConnBurst: 2, CleanupMs: 300000}
@@ -311,6 +412,20 @@ func genC19(r *simrt.Rand, tier string) any {
 func shrinkLim(scAny any) []any {
 	sc := scAny.(*LimScn)
 	var out []any
+	for ti := range sc.Threads {
+		for j := range sc.Threads[ti] {
+			c := *sc
+			c.Threads = make([][]LimEv, len(sc.Threads))
+			for k := range sc.Threads {
+				c.Threads[k] = append([]LimEv(nil), sc.Threads[k]...)
+			}
+			c.Threads[ti] = append(c.Threads[ti][:j], c.Threads[ti][j+1:]...)
+			out = append(out, &c)
+		}
+	}
+	if len(sc.Threads) > 0 {
+		return out
+	}
 	n := len(sc.Events)
 	for chunk := n / 2; chunk >= 1; chunk /= 2 {
 		for start := 0; start+chunk <= n; start += chunk {
@@ -332,6 +447,6 @@ func init() {
 		Rule: "one case = a timing sequence of 10-70 AllowRequest/AllowOperation events over 1-3 IPs, 1-3 connections and all four operation types on the fake clock, with gaps drawn from {0, a third of a token, just over k tokens, milliseconds, seconds, hours (longer than CleanupInterval)} and rates/bursts incl. zero and the fractional mount rate; oracles: per limiter instance admitted <= burst + rate*elapsed at every prefix (reference buckets), a request inside all limits is admitted when nothing was refused before, and the same sequence under CleanupInterval 1 ms and 24 h yields identical decisions; non-trivial = at least one event; distinct by event digest",
 		Gen:  genC18, New: func() any { return &LimScn{} }, Run: runLimiter, Shrink: shrinkLim, Real: real, Stubbed: stub})
 	Register(&Prop{ID: "C19", Level: "exploration",
-		Rule: "one case = 20-100 events: an abusive client sending far beyond its per-IP/per-connection limit interleaved on the fake clock with compliant clients spaced seconds apart, under small global budgets; oracle: with reference buckets charged only by admitted requests, a compliant request inside its own limits is admitted whenever the admitted total leaves a token in the global budget; non-trivial = at least one event; distinct by event digest",
+		Rule: "one case = 20-100 events: an abusive client sending far beyond its per-IP/per-connection limit interleaved on the fake clock with compliant clients spaced seconds apart, under small global budgets; oracle: with reference buckets charged only by admitted requests, a compliant request inside its own limits is admitted whenever the admitted total leaves a token in the global budget; 25% of the cases are concurrent: an abusive client (3-7 requests) and 1-3 fresh clients call AllowRequest at one simulated instant from separate tasks under the seeded scheduler (global budget 1-3, per-client burst 1-2) and the decisions are checked with porcupine against a specification in which an admission needs room in both budgets and a refusal needs either an exhausted global budget (counting admitted requests only) or a client that has itself issued its burst; non-trivial = at least one event (>= 3 requests from >= 2 tasks when concurrent); distinct by event digest",
 		Gen:  genC19, New: func() any { return &LimScn{} }, Run: runLimiter, Shrink: shrinkLim, Real: real, Stubbed: stub})
 }
